@@ -756,7 +756,7 @@ def run(ctx):
         corpus.append(c)
     tools = ctx.tier == "thorough"
     run_batch(ctx, corpus, tools)
-    n = int(os.environ.get("VERIF_N") or ctx.n(400, 4000))
+    n = int(os.environ.get("VERIF_N") or ctx.n(400, 20000))
     if not ctx.proof_ok:
         n = max(n, 3000)
         ctx.notes.append("proof side broken: widened search")
@@ -769,6 +769,40 @@ def run(ctx):
             break
     if not tools:
         ctx.extra_cov["toolchains"] = {"node": "not used in quick tier", "rustc": "not used in quick tier"}
+    shrink_violation(ctx)
+
+
+def shrink_violation(ctx):
+    """delta-debug the smallest failing input (re-running R, S and M) and report the shrunk one as the replay"""
+    from vlib.framework import Ctx, canon
+
+    vs = [v for v in ctx.violations if isinstance(v.get("case"), dict) and "content" in v["case"] and v["case"].get("states")]
+    if not vs:
+        return
+    v0 = min(vs, key=lambda v: len(canon(v)))
+    what = v0.get("what")
+    last = {}
+
+    def still_fails(case):
+        c = dict(case)
+        c["bad"] = bad_names(c["content"])
+        plain = {k for k, p in c["content"]["pars"] if "v" in p}
+        if any(f not in plain for f in c["free"]):
+            return False
+        if len(c["states"][0][1]) != len(c["content"]["vars"]):
+            c["states"] = [[t, xs[: len(c["content"]["vars"])] + ["1"] * (len(c["content"]["vars"]) - len(xs)), ps] for t, xs, ps in c["states"]]
+        tmp = Ctx(ctx.prop, ctx.tier, ctx.seed)
+        (R, M), = evaluate([c], ctx.driver_ok)
+        judge_case(tmp, c, R, M)
+        hit = [v for v in tmp.violations if v.get("what") == what]
+        if hit:
+            last["v"] = min(hit, key=lambda v: len(canon(v)))
+        return bool(hit)
+
+    small, spent = cg.shrink(v0["case"], still_fails)
+    ctx.extra_cov["shrink"] = {"evaluations": spent, "from_bytes": len(canon(v0["case"])), "to_bytes": len(canon(small))}
+    if "v" in last and len(canon(last["v"])) < len(canon(v0)):
+        ctx.violations.append(dict(last["v"], shrunk_from=len(canon(v0["case"]))))
 
 
 def replay(ctx, rp):
